@@ -236,6 +236,21 @@ func TestC16(t *testing.T) {
 		reqs = append(keep, bulk...)
 		r.Shuffle(len(reqs), func(i, j int) { reqs[i], reqs[j] = reqs[j], reqs[i] })
 	}
+	// a fixed tail (after the shuffled requests): valid data-plane requests on a richer topology — a
+	// dead-letter policy of one attempt whose dead-letter topic has a subscription with a filter the
+	// message does not satisfy, one it satisfies, and an ordered one; nack, then the Pull that forwards
+	tail := []Rpc{
+		{Kind: "createSub", Sub: &SubReq{Name: "projects/p/subscriptions/src", Topic: T, DLTopic: pstr(D), DLMax: 1}},
+		{Kind: "createSub", Sub: &SubReq{Name: "projects/p/subscriptions/dlno", Topic: D, Filter: "attributes:never"}},
+		{Kind: "createSub", Sub: &SubReq{Name: "projects/p/subscriptions/dlyes", Topic: D, Filter: "NOT attributes:never", Ordering: true}},
+		{Kind: "op", Op: &Op{K: "publish", Topic: "t", Via: "handler", Msgs: []MsgSpec{{N: 900, Key: "k"}, {N: 901}}}},
+		{Kind: "op", Op: &Op{K: "pull", Sub: "src", Max: 2, Via: "handler"}},
+		{Kind: "op", Op: &Op{K: "delay", Refs: []Ref{{N: 900, Sub: "src"}, {N: 901, Sub: "src"}}, D: 0, Via: "handler"}},
+		{Kind: "op", Op: &Op{K: "pull", Sub: "src", Max: 2, Via: "handler"}},
+		{Kind: "op", Op: &Op{K: "pull", Sub: "dlyes", Max: 5, Via: "handler"}},
+		{Kind: "op", Op: &Op{K: "pull", Sub: "dlno", Max: 5, Via: "handler"}},
+	}
+	reqs = append(reqs, tail...)
 	all := append(append([]Rpc{}, setup...), reqs...)
 	crashed := map[string]bool{}
 	lines, results := runApi(t, Seed(), all, func(i int, w *ApiWorld, r *RpcResult) bool {
@@ -247,7 +262,11 @@ func TestC16(t *testing.T) {
 			sig := "crash-" + r.Rpc.Kind
 			if !crashed[sig] {
 				crashed[sig] = true
-				p := writeApiReplay(fmt.Sprintf("C16-%s-%d.json", sig, Seed()), apiReplay{Property: "C16", Sig: sig, Seed: Seed(), Rpcs: append(append([]Rpc{}, setup...), r.Rpc),
+				rpcs := append(append([]Rpc{}, setup...), r.Rpc)
+				if r.Rpc.Kind == "op" {
+					rpcs = append([]Rpc{}, all[:i+1]...) // a data-plane request: the state it runs in is built by the requests before it
+				}
+				p := writeApiReplay(fmt.Sprintf("C16-%s-%d.json", sig, Seed()), apiReplay{Property: "C16", Sig: sig, Seed: Seed(), Rpcs: rpcs,
 					What: "handler panicked: " + r.Panic})
 				st.Violate(Violation{What: fmt.Sprintf("[%s] request %s makes the handler panic (%s); the production interceptor chain has no recovery interceptor, the server process terminates", sig, js, r.Panic), Replay: p, FoundInput: true, Sig: sig})
 			}
@@ -701,7 +720,11 @@ func TestC17(t *testing.T) {
 	var reqs []Rpc
 	reqs = append(reqs, Rpc{Kind: "createTopic", Name: T, Labels: map[string]string{"team": "a", "": "empty"}}, Rpc{Kind: "createTopic", Name: D}, Rpc{Kind: "getTopic", Name: T},
 		Rpc{Kind: "updateTopic", Has: true, Name: T, Labels: map[string]string{"x": "y"}, Paths: []string{"labels"}}, Rpc{Kind: "getTopic", Name: T},
-		Rpc{Kind: "updateTopic", Has: true, Name: T, Labels: map[string]string{"z": "w"}, Paths: nil}, Rpc{Kind: "getTopic", Name: T})
+		Rpc{Kind: "updateTopic", Has: true, Name: T, Labels: map[string]string{"z": "w"}, Paths: nil}, Rpc{Kind: "getTopic", Name: T},
+		// the labels are replaced by nothing
+		Rpc{Kind: "updateTopic", Has: true, Name: T, Labels: map[string]string{}, Paths: []string{"labels"}}, Rpc{Kind: "getTopic", Name: T},
+		Rpc{Kind: "updateTopic", Has: true, Name: T, Labels: map[string]string{"again": "1"}, Paths: []string{"labels"}}, Rpc{Kind: "getTopic", Name: T},
+		Rpc{Kind: "updateTopic", Has: true, Name: T, Labels: nil, Paths: []string{"labels"}}, Rpc{Kind: "getTopic", Name: T})
 	randSub := func(name string) *SubReq {
 		s := &SubReq{Name: name, Topic: T, Ordering: r.Intn(2) == 0}
 		if r.Intn(2) == 0 {
@@ -758,6 +781,7 @@ func TestC17(t *testing.T) {
 	pathFields := map[string][]string{"labels": {"labels"}, "expiration_policy": {"ttl"}, "message_retention_duration": {"retention"}, "enable_message_ordering": {"ordering"},
 		"retry_policy": {"retry", "ackdl"}, "push_config": {"push"}, "filter": {"filter"}, "dead_letter_policy": {"dl"}}
 	var pendingUpd *Rpc
+	wantTopic := ""
 	lines, results := runApi(t, Seed(), reqs, func(i int, w *ApiWorld, res *RpcResult) bool {
 		rq := res.Rpc
 		st.Count("rpc_"+rq.Kind, 1)
@@ -825,6 +849,26 @@ func TestC17(t *testing.T) {
 				}
 				st.Count("get_after_create_checks", 1)
 			}
+		case "updateTopic":
+			// a topic update whose mask names `labels` and that is answered OK: the response, and the next
+			// GetTopic, carry exactly the labels of the request
+			if res.Status == "OK" && rq.Has && len(rq.Paths) == 1 && rq.Paths[0] == "labels" {
+				want := "name=" + Enc(rq.Name) + ",labels=" + MapStr(rq.Labels)
+				if res.Body != want {
+					violate("update-not-applied", fmt.Sprintf("UpdateTopic(%s, labels=%v, mask [labels]) answered OK with %q, expected %q", rq.Name, rq.Labels, res.Body, want), reqs[:i+1])
+					return false
+				}
+				wantTopic = want
+			}
+		case "getTopic":
+			if wantTopic != "" && res.Status == "OK" {
+				if res.Body != wantTopic {
+					violate("update-not-applied", fmt.Sprintf("GetTopic after UpdateTopic(mask [labels]) returns %q, expected %q", res.Body, wantTopic), reqs[:i+1])
+					return false
+				}
+				st.Count("topic_update_checks", 1)
+			}
+			wantTopic = ""
 		case "updateSub":
 			if res.Status == "OK" {
 				c := rq
